@@ -2,7 +2,7 @@
    fails to compile if Props/C19.v is weakened, renamed or given other hypotheses. *)
 From Coq Require Import SpecFloat.
 Require Import Base Value Float PrintOptions ParseOptions Utf8 Reader Scan Num NumberOps Parser.
-Require Import RelFramework PositionProofs.
+Require Import RelFramework PositionProofs SourcesAgree.
 Require Import Lexpr.Props.C19.
 
 Check (C19_from_trait_location :
@@ -46,3 +46,32 @@ Check (C19_truncation_is_eof_refuted :
     (exists v, from_trait default_ro (fun _ => true) true dec_to_f64 SrcSlice (bytes_events text) = POk v) /\
     from_trait default_ro (fun _ => true) true dec_to_f64 SrcSlice (bytes_events prefix) = PErr (XErr (ESyntax c l cl)) /\
     classify_code c = CatSyntax).
+
+Check (C19_truncation_partial :
+  forall ro alpha fast std_parse (pre rest : list event) v,
+  from_trait ro alpha fast std_parse SrcIo (pre ++ rest) = POk v ->
+  (exists v', from_trait ro alpha fast std_parse SrcIo pre = POk v') \/
+  (exists c l cl, from_trait ro alpha fast std_parse SrcIo pre = PErr (XErr (ESyntax c l cl)) /\
+     (classify_code c = CatEof \/ c = NumberOutOfRange \/ c = InvalidUnicodeCodePoint \/ c = ExpectedOctet \/ c = RecursionLimitExceeded))).
+
+Check (C19_truncation_partial_datum :
+  forall ro alpha fast std_parse (pre rest : list event) d,
+  datum_from_trait ro alpha fast std_parse SrcIo (pre ++ rest) = POk d ->
+  (exists d', datum_from_trait ro alpha fast std_parse SrcIo pre = POk d') \/
+  (exists c l cl, datum_from_trait ro alpha fast std_parse SrcIo pre = PErr (XErr (ESyntax c l cl)) /\
+     (classify_code c = CatEof \/ c = NumberOutOfRange \/ c = InvalidUnicodeCodePoint \/ c = ExpectedOctet \/ c = RecursionLimitExceeded))).
+
+Check (C19_truncation_partial_slice :
+  forall ro alpha fast std_parse (p s : bytes) v,
+  from_trait ro alpha fast std_parse SrcSlice (bytes_events (p ++ s)) = POk v ->
+  (exists v', from_trait ro alpha fast std_parse SrcSlice (bytes_events p) = POk v') \/
+  (exists c l cl, from_trait ro alpha fast std_parse SrcSlice (bytes_events p) = PErr (XErr (ESyntax c l cl)) /\
+     (classify_code c = CatEof \/ c = NumberOutOfRange \/ c = InvalidUnicodeCodePoint \/ c = ExpectedOctet \/ c = RecursionLimitExceeded))).
+
+Check (C19_truncation_nonvacuous :
+  let run txt := from_trait default_ro (fun _ => true) true dec_to_f64 SrcIo (bytes_events txt) in
+  run (s2b "(a #\space ""x\n"" 1.5e3)") = POk (vlist [Symbol (s2b "a"); Char 32; String [120; 10]; Number (Float (f64_of_bits 4654311885213007872))]) /\
+  run (s2b "(a #\sp") = PErr (XErr (ESyntax EofWhileParsingCharacterConstant 1 7)) /\
+  run (s2b "(a #\space ""x\") = PErr (XErr (ESyntax EofWhileParsingString 1 14)) /\
+  run (s2b "(a #\space ""x\n"" 1.5e") = PErr (XErr (ESyntax EofWhileParsingValue 1 21)) /\
+  run (s2b "(a #\space ""x\n"" 1.5") = PErr (XErr (ESyntax EofWhileParsingList 1 20))).
